@@ -329,6 +329,20 @@ func (fc *FuncCtx) evalExpr(st *State, e ast.Expr) Val {
 	if hasTV && tv.IsType() {
 		return Val{TypeV: tv.Type}
 	}
+	// floating point is not modelled: any float-valued expression (other than a variable) is an unknown value, and a
+	// comparison of floats an unknown boolean
+	if hasTV && isFloatType(tv.Type) {
+		if _, isId := ast.Unparen(e).(*ast.Ident); !isId {
+			fc.note("floating point expression abstracted to an unknown value")
+			return Val{T: fc.freshConst("flt", SV), Typ: tv.Type}
+		}
+	}
+	if be, ok := ast.Unparen(e).(*ast.BinaryExpr); ok && hasTV {
+		if lt, ok2 := fc.info.Types[be.X]; ok2 && isFloatType(lt.Type) && fc.sortOf(tv.Type).Kind == "Bool" {
+			fc.note("floating point comparison abstracted to an unknown boolean")
+			return Val{T: fc.freshConst("fltcmp", SBool), Typ: tv.Type}
+		}
+	}
 	switch x := e.(type) {
 	case *ast.ParenExpr:
 		return fc.evalExpr(st, x.X)
@@ -1006,4 +1020,12 @@ func (fc *FuncCtx) evalComposite(st *State, x *ast.CompositeLit, typ types.Type)
 func (fc *FuncCtx) evalExprTo(st *State, e ast.Expr, to types.Type) *Term {
 	v := fc.evalExpr(st, e)
 	return fc.coerce(st, v, to)
+}
+
+func isFloatType(t types.Type) bool {
+	if t == nil {
+		return false
+	}
+	b, ok := types.Unalias(t).Underlying().(*types.Basic)
+	return ok && b.Info()&types.IsFloat != 0
 }
